@@ -150,7 +150,7 @@ def main():
             {'name': 'bcheck', 'path': '/verif/bcheck', 'serves_properties': [c['property_id'] for c in checks],
              'kind_free_text': 'bounded stand-in: the same contracts / reference specs evaluated on the real functions under /venv/bin/python over an enumerated finite scope; never counted as proved'}],
         'checks': checks,
-        'notes': 'exit codes of ./check: 0 held, 1 VIOLATION (a refuted obligation, a bounded counterexample, or an obligation discharged on the pinned tree -- contracts/expected/<id>.json -- that the verifier no longer accepts: reported with no-failing-input-found unless the bounded layer supplies an input), 2 undecided (the changed code left the supported subset, or an obligation that was never discharged), 3 checker fault. A check also runs the tasks that discharge the contracts its own tasks assume (lib/driver.py DEPENDS). VERIF_REPO=<dir> points the checks at another tree (used for seeded mutants).',
+        'notes': 'exit codes of ./check: 0 held, 1 VIOLATION (a refuted obligation, a bounded counterexample, or an obligation discharged on the pinned tree -- contracts/expected/<id>.json -- that the verifier no longer accepts: reported with no-failing-input-found unless the bounded layer supplies an input), 3 checker fault. When the deductive part is UNDECIDED for the tree under test (the changed code left the supported subset, a contract lost its binding, an obligation that was never discharged stays open) nothing is refuted: UNDECIDED lines are printed, the evidence of that run is downgraded to level exploration, and the exit code is that of the bounded layer (0 if the property held on everything it explored; 2 only when the bounded layer was switched off). A check also runs the tasks that discharge the contracts its own tasks assume (lib/driver.py DEPENDS). VERIF_REPO=<dir> points the checks at another tree (used for seeded mutants).',
         'not_applicable': na,
     }
     json.dump(m, open(os.path.join(V, 'MANIFEST.json'), 'w'), indent=1)
